@@ -300,7 +300,7 @@ func (s *C13) Run(c *scen.Ctx) {
 						switch k := simrt.Draw(3, "c13.newerwhat"); {
 						case k == 0:
 							v.Port, v.Timeout = v.Port+1, v.Timeout+500
-						case k == 1 || s.weighted:
+						case k == 1:
 							v.Qos, v.SetId, v.Grid = 3, "a.b.c", 2
 						default:
 							v.Weight += 50
